@@ -322,6 +322,12 @@ def t_dispatch_weak():
         H.mon_init(c, cur, NONE, H.SEARCH, offer_next=cur)
         g['g_L'] = NONE
         c.pyghost['cur0'] = cur
+        if getattr(it.w, 'faulty_super', False):
+            # no active state is one that gives no status to the super search (start_at and the entry paths refuse
+            # to enter such a state)
+            a = z3.Const('a!act', Ref)
+            c.assume(z3.ForAll([a], z3.Implies(z3.And(is_state(a), encloses(a, cur)), z3.Not(H.faulty(a))),
+                               patterns=[H.faulty(a)]))
         out = run_body(it, method(it, self, 'dispatch'), [e])
         none = bool(c.pyghost.get('returned_none'))
         if out.raised is None:
